@@ -142,7 +142,7 @@ def S():
     return importlib.import_module('supp.scope')
 
 
-@harness(['C05', 'C01'], 'supp.scope.Flow.parent_names[entry region of a scope]', twins=('spec-locals-fall-back-to-outer',))
+@harness(['C05', 'C01', 'C08'], 'supp.scope.Flow.parent_names[entry region of a scope]', twins=('spec-locals-fall-back-to-outer',))
 def parent_names_entry(run, twin=None):
     """the table a scope body starts from (language reference 4.2.2), at every identifier k:
     function scope: module binding if k is declared global there; nothing if k is a local of the function (never an outer or builtin
